@@ -69,7 +69,7 @@ class Gen:
                 i = own if (own is not None and r.chance(1, 3) and self.kinds[own] in STOPPABLE) else self.pick(STOPPABLE)
                 if i is not None: return f"stop h{i}"
             elif x < 42:
-                i = self.pick()
+                i = self.pick(live=not r.chance(1, 3))      # also on closing handles
                 if i is not None: return f"{r.choice(['ref', 'unref', 'unref'])} h{i}"
             elif x < (56 if b == "C02" else 50):
                 i = own if (own is not None and r.chance(1, 2)) else self.pick()
@@ -80,9 +80,11 @@ class Gen:
                 i = self.pick(("async",))
                 if i is not None: return f"async_send h{i}"
             elif x < 67:
+                if r.chance(1, 6): return "work_null"
                 self.nreq_est += 1; return "work"
             elif x < (75 if b == "C02" else 71):
                 i = self.pick(("udp",))
+                if i is not None and r.chance(1, 6): return f"udp_send_bad h{i}"
                 if i is not None: self.nreq_est += 1; return f"udp_send h{i}"
             elif x < 74:
                 if self.nreq_est: return f"cancel r{r.below(self.nreq_est + 1)}"
@@ -265,6 +267,12 @@ class Mon:
                     inflight = any(q["owed"] and q["h"] == hid for q in Rq.values())
                     own_cb = any(k == "udp_send" and Rq.get(r_, {}).get("h") == hid for k, r_ in cbstack)
                     Rq[nreq] = dict(kind="udp", h=hid, owed=True, cancelled=False, sync=not inflight and not own_cb); nreq += 1
+                elif op in ("work_null", "udp_send_bad"):
+                    want = -22 if op == "work_null" else -89
+                    if ret != want:
+                        self.bad("C01", "sync-reject-ret", f"{op} returned {ret}, expected {want}", i)
+                    if o0 and nxt and (o0["ar"], o0["ah"], o0["alive"]) != (nxt["ar"], nxt["ah"], nxt["alive"]):
+                        self.bad("C01", "sync-reject-registered", f"a synchronously rejected request changed the loop counters", i)
                 elif op == "cancel":
                     rid = int(text[1][1:])
                     if ret == 0 and rid in Rq: Rq[rid]["cancelled"] = True
@@ -464,7 +472,14 @@ class Mon:
 
     def finish_run(self, r, ret, nxt, H, i):
         if ret != nxt["alive"]:
-            self.bad("C01", "run-return", f"uv_run returned {ret} but uv_loop_alive() is {nxt['alive']} right after", i)
+            npoll0 = sum(1 for t in r["top"] if t[0] == "poll")
+            if (r["mode"] == "DEFAULT" and ret == 1 and npoll0 == 0 and r["stop_seen"] and not r["stop_at_start"]
+                    and r["top"] and all(t[0] == "cb" and t[1] == "timer" for t in r["top"])):
+                # known deviation: uv_stop inside the initial timer pass; `r` was computed before the pass
+                self.bad("C01", "run-return-stale-after-initial-timers", "uv_run(UV_RUN_DEFAULT) returned 1 but uv_loop_alive() is 0: "
+                         "uv_stop was called in the initial timer pass, the loop body never ran, the liveness value is stale", i)
+            else:
+                self.bad("C01", "run-return", f"uv_run returned {ret} but uv_loop_alive() is {nxt['alive']} right after", i)
         if nxt["stop"]:
             self.bad("C03", "stop-not-cleared", "stop flag still set after uv_run returned", i)
         if r["mode"] == "DEFAULT" and ret == 1 and not r["stop_seen"]:
